@@ -42,6 +42,7 @@ var Clients = []ClientInfo{
 	{"spa", "", "https://spa.example.com/cb", "AMNone", true, false},
 	{"webx", "webx-secret", "https://webx.example.com/cb", "AMBasic", false, true},
 	{"web2x", "web2x-secret", "https://web2x.example.com/cb", "AMPost", true, true},
+	{"pkjwt", "", "https://pk.example.com/cb", "AMPkjwt", false, false}, // authenticates by client assertion only
 }
 
 func ClientByID(id string) *ClientInfo {
@@ -165,9 +166,40 @@ func (w *World) TokTerm(t *Tok) string {
 }
 
 type Cred struct {
-	Kind    string // none | basic | post
-	ID, Sec string
+	Kind    string // none | basic | post | both | assert
+	ID, Sec string // basic / post: the credential; assert: ID = issuer of the assertion, Sec = variant (good | wrong-key | wrong-aud)
+	FormID  string // both / assert: a client_id sent in the form along with the credential
 }
+
+// pkjwtKey is the key opfix.NewStd registers for client "pkjwt" (kid k1).
+var pkjwtKey = opfix.ECKey("client-pkjwt")
+
+// SignAssertion builds a private_key_jwt client assertion for iss.
+func SignAssertion(iss, variant string) string {
+	var key any = pkjwtKey
+	aud := opfix.Issuer
+	switch variant {
+	case "wrong-key":
+		key = opfix.ECKey("not-the-client-key")
+	case "wrong-aud":
+		aud = "https://other-op.example.com"
+	}
+	signer, err := jose.NewSigner(jose.SigningKey{Algorithm: jose.ES256, Key: key}, (&jose.SignerOptions{}).WithHeader("kid", "k1"))
+	if err != nil {
+		panic(err)
+	}
+	now := time.Now()
+	payload := fmt.Sprintf(`{"iss":%q,"sub":%q,"aud":[%q],"iat":%d,"exp":%d}`, iss, iss, aud, now.Add(-time.Second).Unix(), now.Add(time.Hour).Unix())
+	jws, err := signer.Sign([]byte(payload))
+	if err != nil {
+		panic(err)
+	}
+	out, _ := jws.CompactSerialize()
+	return out
+}
+
+// assertionVerifies: ground truth of VerifyJWTAssertion for SignAssertion's output (the oracle bit of the model).
+func (c Cred) assertionVerifies() bool { return c.Sec == "good" && c.ID == "pkjwt" }
 
 func (c Cred) Term() string {
 	switch c.Kind {
@@ -175,6 +207,14 @@ func (c Cred) Term() string {
 		return emit.Ctor("Basic", emit.Str(c.ID), emit.Str(c.Sec))
 	case "post":
 		return emit.Ctor("Post", emit.Str(c.ID), emit.Str(c.Sec))
+	case "both":
+		return emit.Ctor("Both", emit.Str(c.ID), emit.Str(c.Sec), emit.Str(c.FormID))
+	case "assert":
+		who := emit.None
+		if c.assertionVerifies() {
+			who = emit.Some(emit.Str(c.ID))
+		}
+		return emit.Ctor("Assertion", who, emit.Str(c.FormID))
 	}
 	return "NoCred"
 }
@@ -188,6 +228,15 @@ func (c Cred) apply(form url.Values) []string {
 		if c.Sec != "" {
 			form.Set("client_secret", c.Sec)
 		}
+	case "both":
+		form.Set("client_id", c.FormID)
+		return []string{c.ID, c.Sec}
+	case "assert":
+		form.Set("client_assertion", SignAssertion(c.ID, c.Sec))
+		form.Set("client_assertion_type", oidc.ClientAssertionTypeJWTAssertion)
+		if c.FormID != "" {
+			form.Set("client_id", c.FormID)
+		}
 	}
 	return nil
 }
@@ -197,17 +246,22 @@ func GoodCred(id string) Cred {
 	c := ClientByID(id)
 	switch c.Auth {
 	case "AMBasic":
-		return Cred{"basic", c.ID, c.Secret}
+		return Cred{Kind: "basic", ID: c.ID, Sec: c.Secret}
 	case "AMPost":
-		return Cred{"post", c.ID, c.Secret}
+		return Cred{Kind: "post", ID: c.ID, Sec: c.Secret}
+	case "AMPkjwt":
+		return Cred{Kind: "assert", ID: c.ID, Sec: "good"}
 	}
-	return Cred{"post", c.ID, ""}
+	return Cred{Kind: "post", ID: c.ID}
 }
 
 // BasicCred: the Provider router's introspection / token exchange only read the Basic header.
 func BasicCred(id string) Cred {
 	c := ClientByID(id)
-	return Cred{"basic", c.ID, c.Secret}
+	if c.Auth == "AMPkjwt" {
+		return Cred{Kind: "assert", ID: c.ID, Sec: "good"}
+	}
+	return Cred{Kind: "basic", ID: c.ID, Sec: c.Secret}
 }
 
 var TypeURN = map[string]string{
@@ -457,7 +511,7 @@ func (w *World) Exchange(r opfix.Router, x Exch) {
 		if s := resp.Str("scope"); s != "" {
 			scopes = strings.Split(s, " ")
 		}
-		client := x.Cred.ID
+		client := x.Cred.ID // the credential's client (Basic id / assertion issuer), never the form's client_id
 		access, stored := "XEmpty", emit.None
 		var id string
 		switch {
